@@ -301,3 +301,65 @@ def derived_cpointers(prog, res, floor=3):
                             "pointer is still reachable" % (fn.name, fn.txt(val)[:60], sorted(owners)[0], ptxt, sorted(owners)[0]),
                             unit=fn.unit.display))
     return stat
+
+
+def dead_reentry(prog, res, floor=0, units=None):
+    """a loop that runs `while (v)` over a cursor leaves with v == NULL; a path from that exit back to the loop's
+    head on which v is not assigned again re-enters a loop that cannot iterate.  In sexp_finalize the second pass
+    over the heap - the one that finalizes the dynamic libraries after everything that may still need them - was
+    such a re-entry: it never ran, and no dlopen handle was ever released"""
+    from cfg import reach_without, dominators
+    stat = res.stat("C16.f", "no loop over a cursor is re-entered with the cursor exhausted (second passes start over)", floor=floor)
+    for fn in prog.all_funcs():
+        if not fn.blocks or (units is not None and fn.unit.name not in units):
+            continue
+        dom = None
+        for b in fn.blocks.values():
+            if b.cond is None or b.term not in ("ForStmt", "WhileStmt") or len(b.succs) != 2:
+                continue
+            c = fn.strip(b.cond)
+            cn = fn.nodes[c]
+            v = None
+            if cn["k"] == "ref" and "d" in cn:
+                v = cn["d"]
+            elif cn["k"] == "bin" and cn["o"] == "!=" and fn.const_val(cn["c"][1]) == 0:
+                x = fn.strip(cn["c"][0])
+                if fn.nodes[x]["k"] == "ref" and "d" in fn.nodes[x]:
+                    v = fn.nodes[x]["d"]
+            if v is None or v in fn.params and False:
+                continue
+            if "*" not in (fn.var_type(v) or ""):
+                continue
+            exit_b = b.succs[1]
+            if exit_b is None or exit_b < 0:
+                continue
+            # the loop proper: blocks that reach the header again without leaving through the exit edge
+            dom = dom or dominators(fn)
+            if b.id not in {p for p in fn.blocks[b.id].preds} and not any(b.id in dom.get(p, ()) for p in fn.blocks[b.id].preds):
+                continue        # no back edge: not a loop header
+            stat.sites += 1
+            stat.obligations += 1
+            kills = set()
+            for j, nd in enumerate(fn.nodes):
+                hit = False
+                if nd["k"] == "bin" and nd["o"].endswith("=") and nd["o"] not in ("==", "!=", "<=", ">="):
+                    l = fn.strip(nd["c"][0])
+                    hit = fn.nodes[l]["k"] == "ref" and fn.nodes[l].get("d") == v
+                elif nd["k"] == "decl" and nd.get("d") == v:
+                    hit = True
+                elif nd["k"] == "un" and nd["o"] in ("&", "pre++", "post++", "pre--", "post--"):
+                    x = fn.strip(nd["c"][0])
+                    hit = fn.nodes[x]["k"] == "ref" and fn.nodes[x].get("d") == v
+                if hit:
+                    q = enclosing_elem(fn, j, elem_positions(fn))
+                    if q:
+                        kills.add(q)
+            if reach_without(fn, (exit_b, -1), (b.id, 0), kills) and exit_b != b.id:
+                res.add(Finding("C16", "C16.f.loop-reentered-exhausted", fn.name, "loop over %s" % fn.vars[v]["n"], fn.where(c),
+                                "%s leaves the loop `while (%s)` with %s == NULL and can come back to its head without assigning %s "
+                                "again: the second pass runs zero times, so whatever was deferred to it (in sexp_finalize: the "
+                                "finalizers of dynamic libraries) never happens" % (fn.name, fn.vars[v]["n"], fn.vars[v]["n"], fn.vars[v]["n"]),
+                                unit=fn.unit.display))
+            else:
+                stat.discharged += 1
+    return stat
